@@ -705,7 +705,7 @@ impl Ctx {
                     let config = Config {
                         cases: share as u32,
                         failure_persistence: None,
-                        max_shrink_iters: tier.pick(300, 1500),
+                        max_shrink_iters: tier.pick(1500, 4000),
                         max_global_rejects: 1_000_000,
                         max_local_rejects: 1_000_000,
                         verbose: 0,
